@@ -20,6 +20,7 @@ package yang
 
 import (
 	"fmt"
+	"sort"
 	"sync"
 )
 
@@ -276,14 +277,10 @@ func (ms *Modules) process() []error {
 	// Collect the list of modules we know about now so when we range
 	// below we don't pick up new modules.  We assume the user tells
 	// us explicitly which modules they are interested in.
-	for _, m := range ms.Modules {
-		mods = append(mods, m)
-	}
+	mods = append(mods, inKeyOrder(ms.Modules)...)
 	// Submodules are normally reached through the module that includes
 	// them; one whose module is missing must still be linked.
-	for _, m := range ms.SubModules {
-		mods = append(mods, m)
-	}
+	mods = append(mods, inKeyOrder(ms.SubModules)...)
 	for _, m := range mods {
 		if err := ms.include(m); err != nil {
 			errs = append(errs, err)
@@ -355,12 +352,8 @@ func (ms *Modules) Process() []error {
 	// what order to process them in, so repeat until no progress is made
 
 	mods := make([]*Module, 0, len(ms.Modules)+len(ms.SubModules))
-	for _, m := range ms.Modules {
-		mods = append(mods, m)
-	}
-	for _, m := range ms.SubModules {
-		mods = append(mods, m)
-	}
+	mods = append(mods, inKeyOrder(ms.Modules)...)
+	mods = append(mods, inKeyOrder(ms.SubModules)...)
 	for len(mods) > 0 {
 		var processed int
 		for i := 0; i < len(mods); {
@@ -409,7 +402,7 @@ func (ms *Modules) Process() []error {
 	// an entry does not exist.
 	dvP := map[string]bool{} // cache the modules we've handled since we have both modname and modname@revision-date
 	for _, devmods := range []map[string]*Module{ms.Modules, ms.SubModules} {
-		for _, m := range devmods {
+		for _, m := range inKeyOrder(devmods) {
 			e := ToEntry(m)
 			if !dvP[e.Name] {
 				errs = append(errs, e.ApplyDeviate(ms.ParseOptions.DeviateOptions)...)
@@ -500,4 +493,23 @@ func (ms *Modules) doneBuilding(n Node) {
 	ms.entryCacheMu.Lock()
 	defer ms.entryCacheMu.Unlock()
 	delete(ms.entryBuilding, n)
+}
+
+// inKeyOrder returns the modules of m, each once, in the order of their
+// (smallest) key, so that processing does not depend on map iteration order.
+func inKeyOrder(m map[string]*Module) []*Module {
+	keys := make([]string, 0, len(m))
+	for k := range m {
+		keys = append(keys, k)
+	}
+	sort.Strings(keys)
+	seen := map[*Module]bool{}
+	var mods []*Module
+	for _, k := range keys {
+		if mod := m[k]; !seen[mod] {
+			seen[mod] = true
+			mods = append(mods, mod)
+		}
+	}
+	return mods
 }
